@@ -185,6 +185,7 @@ func (p *Path) tryMerge(fr *Frame, in *ssa.If, cond *Term, outerStop *ssa.BasicB
 	obl, dis := p.st.Obligations, p.st.Discharged
 	if saveGuard == nil {
 		p.mergeBaseObj = p.objN
+		p.mergeDepth = len(p.stack)
 		p.mergeBudget = p.st.Instrs + 4000
 	}
 	ok := true
